@@ -87,6 +87,7 @@ func stateInventory(c rc, pkg, typ string, want []string, fns []*ssa.Function) {
 
 func runC04(p *core.Program, r *core.Report) {
 	c := rc{p, r}
+	noSingledOutValue(c, []string{"bstree/bstree.go"}, nil)
 	workOnEveryPath(c, "bstree.(*BsTree).Traverse", "traversal started on every path", "", "", []string{"traverse", "go func"}, "Traverse returns on a path that never starts the in-order walk: for some states nothing is visited")
 	const T = "bstree.(*BsTree)."
 	const N = "bstree.(*Node)."
